@@ -55,6 +55,35 @@ spec fn median_spec(s: Seq<u64>) -> Option<u64> {
 //@end
 
 // ---------------------------------------------------------------------------------------------------------------------
+// C17: "stale heights from earlier rounds are never reused": storing a provider's result REPLACES whatever an earlier
+// round stored under that provider (also when the new result is a failed fetch, height None) — storage.rs:52
+// ---------------------------------------------------------------------------------------------------------------------
+//@extract file=watchdog/src/fetch.rs item="struct BlockInfo" props=C17
+//@ rewrite R2? "#\[derive\(([^\]]*)\)\]" => ""
+//@end
+// [trusted:axioms] String keys obey vstd's hash-map key model (std's Hash/Eq for String are lawful); `x.to_string()` of a
+// String is an equal String (Display for String writes the string itself)
+#[verifier::external_body]
+proof fn axiom_string_keys()
+    ensures
+        vstd::std_specs::hash::obeys_key_model::<String>(),
+        forall|s: &String, r: String| #[trigger] vstd::string::to_string_from_display_ensures::<String>(s, r) ==> r == *s,
+{}
+//@slice file=watchdog/src/storage.rs item="fn insert_block_info" block_after="BLOCK_INFO_DATA.with(|cell| {" props=C17
+//@ rewrite R7 "cell\.borrow_mut\(\)" => "cell"
+//@ head
+//@| // R8 slice: the closure body of insert_block_info; R7: the thread-local RefCell<HashMap<..>> is passed as `cell: &mut HashMap<..>`
+//@| fn insert_block_info_body(cell: &mut std::collections::HashMap<String, BlockInfo>, info: BlockInfo)
+//@|     ensures
+//@|         // the entry of this provider is exactly the new result; every other provider's entry is untouched
+//@|         final(cell)@ == old(cell)@.insert(info.provider, info),
+//@| {
+//@|     proof { axiom_string_keys(); broadcast use vstd::std_specs::hash::group_hash_axioms; }
+//@ tail
+//@| }
+//@end
+
+// ---------------------------------------------------------------------------------------------------------------------
 // C18: the common transform wrapper (endpoints.rs:244)
 // ---------------------------------------------------------------------------------------------------------------------
 // [trusted:stand-in] candid::Nat (HTTP status) with its comparison against u8; ic_management_canister_types::{HttpHeader,
